@@ -16,6 +16,7 @@ import (
 	"fmt"
 	"go/ast"
 	"go/types"
+	"strings"
 )
 
 type gateSpec struct {
@@ -183,6 +184,23 @@ var gateGroups = []gateGroup{
 	{prop: "C07", id: "C07.i", rule: "every failing step of the deduplication cache set-up and lookup cuts off the successful return",
 		specs: []gateSpec{
 			{fn: "ctlog.initCache", what: "cache set-up", effect: effectSuccess, min: 3},
+			{fn: "ctlog.(*Log).cacheGet", what: "cache lookup", effect: effectSuccess, min: 1, tolerated: cacheGetTolerated},
+			{fn: "ctlog.(*Log).cachePut", what: "cache insert", effect: effectSuccess, min: 1},
+		}},
+	{prop: "C17", id: "C17.k", rule: "in RunSequencer a failed sequencing round cuts off the next round: the loop never calls sequence again after it returned an error",
+		specs: []gateSpec{
+			{fn: "ctlog.(*Log).RunSequencer", what: "sequencer loop", effect: effectCalls(false, Callee{pkgCtlog, "Log", "sequence"}), min: 1},
+		}},
+	{prop: "C05", id: "C05.h", rule: "every failing step of every lock-backend method (SQL execution, DynamoDB / S3 request, body read) cuts off its successful return",
+		specs: []gateSpec{
+			{fn: "ctlog.(*SQLiteBackend).Fetch", what: "SQLite fetch", effect: effectSuccess, min: 1},
+			{fn: "ctlog.(*SQLiteBackend).Replace", what: "SQLite replace", effect: effectSuccess, min: 1},
+			{fn: "ctlog.(*SQLiteBackend).Create", what: "SQLite create", effect: effectSuccess, min: 1},
+			{fn: "ctlog.(*DynamoDBBackend).Fetch", what: "DynamoDB fetch", effect: effectSuccess, min: 1},
+			{fn: "ctlog.(*DynamoDBBackend).Replace", what: "DynamoDB replace", effect: effectSuccess, min: 1},
+			{fn: "ctlog.(*ETagBackend).Fetch", what: "ETag fetch", effect: effectSuccess, min: 2},
+			{fn: "ctlog.(*ETagBackend).Replace", what: "ETag replace", effect: effectSuccess, min: 1},
+			{fn: "ctlog.(*ETagBackend).Create", what: "ETag create", effect: effectSuccess, min: 1},
 		}},
 	{prop: "C13", id: "C13.l", rule: "every failing step of the local backend's Upload, of compareFile and of durable.Mkdir cuts off their success return",
 		specs: []gateSpec{
@@ -241,6 +259,16 @@ func newWitnessTolerated(f *Func, s Site) string {
 	}
 	if calleeIs(f, s, specLockFet) {
 		return "a missing configuration record is the first-start case (ErrLogNotFound), handled by creating it"
+	}
+	return ""
+}
+
+func cacheGetTolerated(f *Func, s Site) string {
+	// the second lookup (legacy 128-bit table): its failure is tolerated only when the table is gone
+	if calleeIs(f, s, Callee{pkgSqlitex, "", "Exec"}) {
+		if q, ok := constString(f.Info(), argByName(f.Info(), s.real(), "query")); ok && strings.Contains(q, "FROM cache WHERE") {
+			return "the legacy table may have been dropped by the operator; the fallback is then disabled (the 256-bit lookup already succeeded)"
+		}
 	}
 	return ""
 }
